@@ -123,6 +123,6 @@ Definition run_ruleset_get_v0 := run_ruleset (fun hist p => rs_get (rs_build rs_
 Definition run_ruleset_spec := run_ruleset (fun hist p => resolve hist p).
 
 Definition ruleset_table : list (bytes * (xval -> xval)) :=
-  [ (B "ruleset.get", run_ruleset_get_v0);
+  [ (B "ruleset.get", run_ruleset_get);
     (B "ruleset.get_v0", run_ruleset_get_v0);
     (B "ruleset.spec", run_ruleset_spec) ].
